@@ -60,6 +60,7 @@ def run(ctx):
     ctx.rule("C02.D1", "positional plumbing of same-typed maps broker -> coordinator -> proxy; slot map inserts every range")
     ctx.rule("C02.D2", "dispatch order: migration map, then local cluster, then MOVED to the owner of the same slot; later stages only on SlotNotFound")
     ctx.rule("C02.D3", "node / proxy index tables of the broker view (exhaustive)", exhaustive=True)
+    ctx.rule("C02.D6", "shared with C09: the slot a command is routed by is the hash of its own key (provenance, re-derived after rewrites), the routing table covers single-slot ranges, local / MOVED / error trichotomy")
     ctx.rule("C02.D5", "`cluster not found` is answered only when the proxy has no cluster (empty cluster name), never because it hosts no master; re-applying metadata keeps the running migration tasks of both tags (their handshake state is not reset)")
     ctx.rule("C02.D4", "redirection bound and phase routing tables (only between source and destination)", exhaustive=True)
     _broker(ctx)
@@ -74,6 +75,9 @@ def run(ctx):
     _redirection(ctx)
     _cluster_not_found(ctx)
     _tasks_carried_over(ctx)
+    from ..engine import AliasCtx
+    from . import C09 as _c09
+    _c09.run(AliasCtx(ctx, "C02.D6", only={"C09.D5", "C09.D6", "C09.D7"}))
 
 
 def _filter_closure_table(ctx, F, c, address_cap="address"):
